@@ -123,7 +123,7 @@ static void c_dec(const Args &a) {
 static void c_clear(const Args &a) {
     int id = (int)a.num("obj"); cpp_of(id)->clear();
     Ev ev("cpp.clear"); ev.s("cls", cls_name(id)).n("obj", id);
-    if (a.num("dump_raw")) { Obj &o = obj_get(id, "cpp."); ev.b("raw", (const uint8_t *)o.mem, o.size); }
+    if (a.num("dump_raw")) { Obj &o = obj_get(id, "cpp."); ev.n("wipe", a.num("wipe")).b("raw", (const uint8_t *)o.mem, o.size); }
     ev.emit();
 }
 static void c_save_key(const Args &a) {
@@ -148,7 +148,7 @@ static void c_del(const Args &a) {
     int id = (int)a.num("obj"); Obj &o = obj_get(id, "cpp."); std::string cn = cls_name(id);
     ((ascon::aead *)o.aux)->~aead();
     Ev ev("cpp.del"); ev.s("cls", cn).n("obj", id);
-    if (a.num("dump_raw")) ev.b("raw", (const uint8_t *)o.mem, o.size);
+    if (a.num("dump_raw")) ev.n("wipe", a.num("wipe")).b("raw", (const uint8_t *)o.mem, o.size);
     ev.emit(); obj_del(id);
 }
 void reg_cpp() {
